@@ -98,6 +98,29 @@ pub fn long_word(rng: &mut Rng, min: usize, max: usize) -> String {
     synth_word(rng, alph, min, max)
 }
 
+/// Code points chosen to stress normalisation, case mapping, splitting and class lookup.
+pub const SOUP: &[char] = &[
+    'İ', 'ı', 'ß', 'ẞ', 'ﬁ', 'ǅ', '\u{345}', '\u{308}', '\u{301}', '\u{303}', '\u{327}', '\u{200d}', '\u{feff}', '\u{202e}',
+    '\u{10ffff}', '\u{d7ff}', '😀', '\0', '\u{85}', '\u{2028}', '\u{3000}', '\u{a0}', 'Ω', 'ω', 'ς', 'Ё', 'ё', 'й', '٣', '²', '½', 'Ａ', 'ａ',
+    'Æ', 'æ', 'Œ', 'œ', 'Ø', 'ø', 'ñ', 'Ñ', 'ç', 'ü', 'Ü', 'a', 'e', 's', 'S', 't', '-', '‑', '…', '‼', '.', ' ', ' ', '\t', '\n', '_', '\'', '"', '$',
+];
+
+/// A string of 0..=12 characters from SOUP (titles and queries no real user would type).
+pub fn soup(rng: &mut Rng) -> String {
+    let n = rng.range(0, 12);
+    (0..n).map(|_| *rng.pick(SOUP)).collect()
+}
+
+/// Sprinkles a few SOUP characters into a string.
+pub fn spice(rng: &mut Rng, s: &str) -> String {
+    let mut cs: Vec<char> = s.chars().collect();
+    for _ in 0..rng.range(1, 3) {
+        let i = rng.below(cs.len() + 1);
+        cs.insert(i, *rng.pick(SOUP));
+    }
+    cs.into_iter().collect()
+}
+
 pub const MARKERS: &[(&str, &str)] = &[
     ("[", "]"), ("", ""), ("<b>", "</b>"), ("{{", "}}"), ("\u{e000}", "\u{e001}"), ("\u{e000}\u{e002}", "\u{e001}"), ("😀", "🏁"),
     ("a", "e"), (" ", " "), ("[", ""), ("", "]"), ("-", "-"),
